@@ -1,0 +1,70 @@
+// Copyright 2026 The Go Authors. All rights reserved.
+// Use of this source code is governed by a BSD-style
+// license that can be found in the LICENSE file.
+
+//go:build verif
+
+package argon2
+
+// Verification hooks (build tag verif only): let a conformance harness drive
+// the unexported building blocks of Argon2 directly (the compression function
+// on the block-function path selected for this build, the variable-length
+// hash, the reference-block index computation) and switch the amd64 code
+// between the SSE4.1 assembly and the Go BlaMka rounds. Nothing here changes
+// the behaviour of Key or IDKey.
+
+// VerifBlockWords is the number of 64-bit words of a memory block.
+const VerifBlockWords = blockLength
+
+// VerifProcessBlock runs the compression function of this build
+// (processBlock, or processBlockXOR if xor is set) on copies of the
+// arguments and returns the resulting out block.
+func VerifProcessBlock(out, in1, in2 [blockLength]uint64, xor bool) [blockLength]uint64 {
+	o, a, b := block(out), block(in1), block(in2)
+	if xor {
+		processBlockXOR(&o, &a, &b)
+	} else {
+		processBlock(&o, &a, &b)
+	}
+	return o
+}
+
+// VerifProcessBlockGeneric is VerifProcessBlock on processBlockGeneric,
+// whatever the build.
+func VerifProcessBlockGeneric(out, in1, in2 [blockLength]uint64, xor bool) [blockLength]uint64 {
+	o, a, b := block(out), block(in1), block(in2)
+	processBlockGeneric(&o, &a, &b, xor)
+	return o
+}
+
+// VerifUseSSE4 reports whether the SSE4.1 assembly rounds are in use. It is
+// always false with the purego tag and on other architectures.
+func VerifUseSSE4() bool { return useSSE4 }
+
+// VerifSetSSE4 switches the SSE4.1 assembly rounds off or (if they were
+// selected by CPU detection when the first call was made) back on, and
+// returns a function restoring the previous value. Not safe for use
+// concurrently with Key or IDKey.
+func VerifSetSSE4(on bool) (restore func()) {
+	if !verifSSE4Known {
+		verifSSE4Known, verifSSE4Detected = true, useSSE4
+	}
+	prev := useSSE4
+	useSSE4 = on && verifSSE4Detected
+	return func() { useSSE4 = prev }
+}
+
+var verifSSE4Known, verifSSE4Detected bool
+
+// VerifBlake2bHash is blake2bHash: the variable-length hash H' of in, of
+// length outLen.
+func VerifBlake2bHash(outLen int, in []byte) []byte {
+	out := make([]byte, outLen)
+	blake2bHash(out, in)
+	return out
+}
+
+// VerifIndexAlpha is indexAlpha: the memory index of the reference block.
+func VerifIndexAlpha(rand uint64, lanes, segments, threads, n, slice, lane, index uint32) uint32 {
+	return indexAlpha(rand, lanes, segments, threads, n, slice, lane, index)
+}
